@@ -280,8 +280,13 @@ class Full(_AbstractMassMatrix):
         """
         if momentum.shape != (self.dimensions, 1):
             raise ValueError()
+        # Non-finite momenta (diverged trajectories) should give a non-finite energy and
+        # thereby a rejected proposal, not an exception: don't let SciPy check for them.
         return 0.5 * _numpy.vdot(
-            momentum, _cho_solve((self.cholesky, self.cholesky_lower), momentum)
+            momentum,
+            _cho_solve(
+                (self.cholesky, self.cholesky_lower), momentum, check_finite=False
+            ),
         )
 
     def kinetic_energy_gradient(
@@ -302,7 +307,9 @@ class Full(_AbstractMassMatrix):
         """
         if momentum.shape != (self.dimensions, 1):
             raise ValueError()
-        return _cho_solve((self.cholesky, self.cholesky_lower), momentum)
+        return _cho_solve(
+            (self.cholesky, self.cholesky_lower), momentum, check_finite=False
+        )
 
     def generate_momentum(self, repeat=1) -> _numpy.ndarray:
         """
